@@ -235,6 +235,25 @@ func (w *World) anteEmu(cc sdk.Context, o ExecOpts) *Outcome {
 type Node struct {
 	*World
 	Hashes [][]byte // app hash per committed height
+	// Transcript, when non-nil, receives one canonical line per ABCI response restricted to the
+	// fields ABCI defines as deterministic (code, codespace, data, gas, events, app hash).
+	Transcript *[]string
+}
+
+func (n *Node) rec(kind string, code uint32, codespace string, data []byte, gw, gu int64, evs []abci.Event, hash []byte) {
+	if n.Transcript == nil {
+		return
+	}
+	var sb strings.Builder
+	fmt.Fprintf(&sb, "%s code=%d cs=%s data=%x gas=%d/%d hash=%x", kind, code, codespace, data, gw, gu, hash)
+	for _, e := range evs {
+		sb.WriteString(" [" + e.Type)
+		for _, a := range e.Attributes {
+			fmt.Fprintf(&sb, " %s=%s", a.Key, a.Value)
+		}
+		sb.WriteString("]")
+	}
+	*n.Transcript = append(*n.Transcript, sb.String())
 }
 
 func NewNode(genesis []byte, t0 time.Time) *Node { return &Node{World: NewWorld(genesis, t0)} }
@@ -254,10 +273,13 @@ func (n *Node) NextBlock(dt time.Duration) (out Outcome) {
 		}
 	}()
 	eb := n.App.EndBlock(abci.RequestEndBlock{Height: n.Header.Height})
+	n.rec("endblock", 0, "", nil, 0, 0, eb.Events, nil)
 	c := n.App.Commit()
+	n.rec("commit", 0, "", nil, 0, 0, nil, c.Data)
 	n.Hashes = append(n.Hashes, c.Data)
 	n.Header = tmproto.Header{ChainID: ChainID, Height: n.Header.Height + 1, Time: n.Header.Time.Add(dt), AppHash: c.Data}
 	bb := n.App.BeginBlock(abci.RequestBeginBlock{Header: n.Header})
+	n.rec("beginblock", 0, "", nil, 0, 0, bb.Events, nil)
 	return Outcome{Class: OK, Events: append(eb.Events, bb.Events...)}
 }
 
@@ -323,6 +345,7 @@ func (n *Node) DeliverMsg(msg sdk.Msg, signer string, fee sdk.Coins) (out Outcom
 
 func (n *Node) DeliverTxBytes(bz []byte, msg sdk.Msg) Outcome {
 	r := n.App.DeliverTx(abci.RequestDeliverTx{Tx: bz})
+	n.rec("delivertx", r.Code, r.Codespace, r.Data, r.GasWanted, r.GasUsed, r.Events, nil)
 	if r.Code == 0 {
 		return Outcome{Class: OK, Events: r.Events, Log: r.Log, Resp: r.Data}
 	}
@@ -377,10 +400,17 @@ func (n *Node) GovExec(msg sdk.Msg) (out Outcome) {
 	}()
 	res, err := h(mc, msg)
 	if err != nil {
-		return errOutcome(err)
+		o := errOutcome(err)
+		n.rec("govexec", o.Code, o.Codespace, nil, 0, 0, nil, nil)
+		return o
 	}
 	write()
-	return Outcome{Class: OK, Events: mc.EventManager().ABCIEvents(), Resp: res}
+	evs := mc.EventManager().ABCIEvents()
+	if res != nil {
+		evs = append(evs, res.Events...)
+	}
+	n.rec("govexec", 0, "", nil, 0, 0, evs, nil)
+	return Outcome{Class: OK, Events: evs, Resp: res}
 }
 
 // EventsOfType filters ABCI events by (proto full name or plain) type.
